@@ -110,6 +110,7 @@ struct CI {
     PDU* (*cctor)(const PDU*); PDU* (*mctor)(PDU*); void (*cas)(PDU*, const PDU*); void (*mas)(PDU*, PDU*);
     PDU* (*div)(const PDU*, const PDU*); void (*diveq)(PDU*, const PDU*);
     bool stamped, mut, ser;
+    bool moves;   // move construction / assignment of this class steals the children (probed at start, see probe_move_semantics)
 };
 template <class K> struct G {
     static PDU* make(int s) { K* p = St<K>::create(); St<K>::set(*p, s); return p; }
@@ -126,7 +127,7 @@ static std::vector<CI> CL;
 static std::unordered_map<std::type_index, int> CLIDX;
 template <class K> static void reg(const char* name, bool stamped = true, bool mut = true, bool ser = true) {
     CI c = {name, std::type_index(typeid(K)), G<K>::make, G<K>::get, G<K>::set, G<K>::cctor, G<K>::mctor, G<K>::cas, G<K>::mas,
-            G<K>::div, G<K>::diveq, stamped, mut, ser};
+            G<K>::div, G<K>::diveq, stamped, mut, ser, true};
     CLIDX[c.ti] = (int)CL.size();
     CL.push_back(c);
 }
@@ -147,6 +148,18 @@ static void init_classes() {
     R1(PPPoE) R1(RadioTap) R1(RTP) R1(SLL) R1(SNAP) R1(STP) R1(UDP) R1(VXLAN)
 #undef R1
     C_ETH = cidx("EthernetII"); C_TCP = cidx("TCP"); C_RAW = cidx("RawPDU");
+    // The statement does not require a class to HAVE move operations: where `K(std::move(x))` resolves to the copy constructor
+    // (source keeps its children, destination gets clones) the model treats move-construct/-assign of that class as copies.
+    // A source and destination that SHARE the child after a move is never legitimate and is left to the per-step checks.
+    for (size_t c = 0; c < CL.size(); ++c) {
+        PDU* p = CL[c].make(1); p->inner_pdu(CL[C_RAW].make(2));
+        PDU* q = CL[c].mctor(p);
+        bool shared = p->inner_pdu() && p->inner_pdu() == q->inner_pdu();
+        CL[c].moves = shared || p->inner_pdu() == 0;
+        if (shared) p->inner_pdu_ = 0;
+        delete p; delete q;
+    }
+    Mon::reset();
 }
 static const int N_DEEP_CLASSES = 7;   // the first 7 entries of CL
 
@@ -255,25 +268,27 @@ static int mstep(Model& m, const Op& o) {
     case DIV: { dest = fr; S[fr].kind = RAW; S[fr].ch = copies(m, S[o.a].ch); auto c = copies(m, S[o.b].ch); S[fr].ch.insert(S[fr].ch.end(), c.begin(), c.end()); break; }
     case CLONE: case CCTOR: dest = fr; S[fr].kind = RAW; S[fr].ch = copies(m, S[o.a].ch, o.b); break;
     case MCTOR: {
+        if (!CL[S[o.a].ch[o.b].cls].moves) { dest = fr; S[fr].kind = RAW; S[fr].ch = copies(m, S[o.a].ch, o.b); break; }
         dest = fr; S[fr].kind = RAW;
         ML r = S[o.a].ch[o.b]; r.from = r.uid; r.uid = m.next_uid++;
         S[fr].ch.push_back(r);
         S[fr].ch.insert(S[fr].ch.end(), S[o.a].ch.begin() + o.b + 1, S[o.a].ch.end());
         S[o.a].ch.resize(o.b + 1); S[o.a].ch[o.b].stamp = 0;
         break; }
+    case MAS: if (CL[S[o.a].ch[o.b].cls].moves) {
+        std::vector<ML> src = S[o.c].ch;
+        S[o.a].ch.resize(o.b + 1);
+        S[o.a].ch[o.b].stamp = src[o.d].stamp; S[o.a].ch[o.b].from = src[o.d].uid;
+        S[o.a].ch.insert(S[o.a].ch.end(), src.begin() + o.d + 1, src.end());
+        S[o.c].ch.resize(o.d + 1); S[o.c].ch[o.d].stamp = 0;
+        break; }
+        // fall through: no move assignment in this class, it copies
     case CAS: {
         std::vector<ML> src = S[o.c].ch;   // value of the right-hand side before anything changes
         std::vector<ML> kids = copies(m, src, o.d + 1);
         S[o.a].ch.resize(o.b + 1);
         S[o.a].ch[o.b].stamp = src[o.d].stamp; S[o.a].ch[o.b].from = src[o.d].uid;
         S[o.a].ch.insert(S[o.a].ch.end(), kids.begin(), kids.end());
-        break; }
-    case MAS: {
-        std::vector<ML> src = S[o.c].ch;
-        S[o.a].ch.resize(o.b + 1);
-        S[o.a].ch[o.b].stamp = src[o.d].stamp; S[o.a].ch[o.b].from = src[o.d].uid;
-        S[o.a].ch.insert(S[o.a].ch.end(), src.begin() + o.d + 1, src.end());
-        S[o.c].ch.resize(o.d + 1); S[o.c].ch[o.d].stamp = 0;
         break; }
     case SETP: { size_t keep = o.b ? S[o.a].ch.size() : 1; S[o.a].ch.resize(keep); S[o.a].ch.insert(S[o.a].ch.end(), S[o.c].ch.begin(), S[o.c].ch.end());
                  S[o.c].ch.clear(); S[o.c].kind = EMPTY; break; }
@@ -627,6 +642,40 @@ static std::vector<Op> make_alphabet(const std::vector<int>& classes, bool with_
     return a;
 }
 
+// Which worker expands which node of the split level.  Nodes whose histories constructed the same multiset of classes have
+// the most overlapping descendants, so they are kept together (less work duplicated between workers); groups larger than the
+// fair share are cut into parts; parts are dealt largest-first to the least loaded worker.  Every worker computes the same
+// frontier, hence the same assignment.
+static int g_share_policy = 1;
+static std::vector<int> assign_shares(const std::vector<std::vector<Op> >& hists, int nshare) {
+    std::vector<int> owner(hists.size(), 0);
+    if (g_share_policy == 0) { for (size_t i = 0; i < hists.size(); ++i) owner[i] = (int)(i % nshare); return owner; }
+    std::map<std::vector<int>, std::vector<size_t> > groups;
+    for (size_t i = 0; i < hists.size(); ++i) {
+        std::vector<int> k;
+        for (auto& o : hists[i]) if (o.code == CONS) k.push_back(o.a);
+        std::sort(k.begin(), k.end());
+        groups[k].push_back(i);
+    }
+    size_t target = hists.size() / nshare + 1;
+    std::vector<std::vector<size_t> > parts;
+    for (auto& g : groups) {
+        size_t np = (g.second.size() + target - 1) / target;
+        size_t base = parts.size();
+        parts.resize(base + np);
+        for (size_t j = 0; j < g.second.size(); ++j) parts[base + j % np].push_back(g.second[j]);
+    }
+    std::stable_sort(parts.begin(), parts.end(), [](const std::vector<size_t>& a, const std::vector<size_t>& b) { return a.size() > b.size(); });
+    std::vector<size_t> load(nshare, 0);
+    for (auto& p : parts) {
+        int best = 0;
+        for (int w = 1; w < nshare; ++w) if (load[w] < load[best]) best = w;
+        load[best] += p.size();
+        for (size_t i : p) owner[i] = best;
+    }
+    return owner;
+}
+
 struct Counters { uint64_t transitions, states, violations, max_layers; Counters() : transitions(0), states(0), violations(0), max_layers(0) {} };
 static uint64_t g_case_no = 0;
 static std::string g_last_hist;
@@ -653,8 +702,14 @@ static bool explore(const std::string& ctx, const std::vector<Op>& seed, const s
     for (int lvl = 0; lvl < depth && complete; ++lvl) {
         bool counting = lvl >= split_level || share == 0;
         next.clear();
+        std::vector<int> owner;
+        if (lvl == split_level && nshare > 1) {
+            std::vector<std::vector<Op> > hs;
+            for (auto& nd : frontier) hs.push_back(nd.hist);
+            owner = assign_shares(hs, nshare);
+        }
         for (size_t fi = 0; fi < frontier.size(); ++fi) {
-            if (lvl == split_level && nshare > 1 && (int)(fi % nshare) != share) continue;
+            if (lvl == split_level && nshare > 1 && owner[fi] != share) continue;
             if (deadline_reached()) { complete = false; break; }
             const Node& nd = frontier[fi];
             std::vector<Op> h = nd.hist;
@@ -835,25 +890,12 @@ static void run_job(int job) {
     init_classes();
     bool th = A.thorough();
     int NJ = th ? NJ_T : NJ_Q;
+    if (getenv("C12_SHARE")) g_share_policy = atoi(getenv("C12_SHARE"));
     if (getenv("C12_LAZY")) g_lazy_prefix = atoi(getenv("C12_LAZY")) != 0;
     // warm-up (one-time lazy initialisation inside libtins / libstdc++ must not look like a leak)
     { std::vector<Op> w; parse_ops("cons:IP:2,cons:EthernetII:0,app:1:0,pwc:1,del:0,del:1,del:2", w); exec(w.data(), (int)w.size(), 0); }
     if (job == 0) { self_test(); run_extras(); }
     Counters C;
-    // ---- deep search
-    {
-        std::vector<int> classes; for (int i = 0; i < N_DEEP_CLASSES; ++i) classes.push_back(i);
-        int depth = th ? 6 : 5;
-        if (getenv("C12_DEPTH")) depth = atoi(getenv("C12_DEPTH"));
-        bool d1 = th; if (getenv("C12_D1")) d1 = atoi(getenv("C12_D1")) != 0;
-        std::vector<Op> alpha = make_alphabet(classes, d1);
-        int split = depth >= 5 ? 3 : 2;
-        if (getenv("C12_SPLIT")) split = atoi(getenv("C12_SPLIT"));
-        bool done = explore("mode=deep", std::vector<Op>(), alpha, depth, split, NJ, job, C, depth <= 5);
-        if (done) R.maxv("deep_completed_depth", depth); else R.flags["exhaustive"] = false;
-        if (job == 0) { R.info["deep_alphabet_size"] = str(alpha.size()); R.info["deep_depth"] = str(depth); }
-        if (!g_last_hist.empty()) R.sample(jstr("mode=deep ops=" + g_last_hist));
-    }
     // ---- class sweep
     {
         int sdepth = th ? 2 : 1;
@@ -879,6 +921,25 @@ static void run_job(int job) {
         if (S.max_layers > C.max_layers) C.max_layers = S.max_layers;
         if (job == 0) { R.info["sweep_depth"] = str(sdepth); R.info["sweep_alphabet_size"] = str(alpha.size()); R.info["classes"] = str(CL.size()); }
         if (!g_last_hist.empty()) R.sample(jstr("mode=sweep ops=" + g_last_hist));
+    }
+    // ---- deep search (after the sweep; cheapest pass first, so that a deadline cuts the most expensive pass only)
+    {
+        std::vector<int> classes; for (int i = 0; i < N_DEEP_CLASSES; ++i) classes.push_back(i);
+        struct Pass { int depth; bool below_root; };
+        std::vector<Pass> passes;
+        if (th) { passes.push_back(Pass{5, true}); passes.push_back(Pass{6, false}); } else passes.push_back(Pass{5, false});
+        if (getenv("C12_DEPTH")) { passes.clear(); passes.push_back(Pass{atoi(getenv("C12_DEPTH")), getenv("C12_D1") && atoi(getenv("C12_D1"))}); }
+        std::string desc;
+        for (auto& ps : passes) {
+            std::vector<Op> alpha = make_alphabet(classes, ps.below_root);
+            int split = ps.depth >= 5 ? 3 : 2;
+            if (getenv("C12_SPLIT")) split = atoi(getenv("C12_SPLIT"));
+            bool done = explore("mode=deep", std::vector<Op>(), alpha, ps.depth, split, NJ, job, C, !th);
+            if (done) R.maxv(ps.below_root ? "deep_completed_depth_with_below_root_ops" : "deep_completed_depth", ps.depth); else R.flags["exhaustive"] = false;
+            desc += (desc.empty() ? "" : "; ") + std::string("depth ") + str(ps.depth) + " over " + str(alpha.size()) + " ops" + (ps.below_root ? " (incl. ops on the layer below the root)" : "");
+            if (!g_last_hist.empty()) R.sample(jstr("mode=deep ops=" + g_last_hist));
+        }
+        if (job == 0) R.info["deep_passes"] = jstr(desc);
     }
     R.count("states", C.states); R.count("transitions", C.transitions); R.count("traces_validated_against_impl", C.transitions);
     R.count("violating_transitions", C.violations);
